@@ -9,6 +9,7 @@ import (
 	"io/ioutil"
 	"math/rand"
 	"os"
+	"strings"
 
 	"github.com/biogo/biogo/morass"
 
@@ -27,6 +28,12 @@ func Faults(w *vt.W, rng *rand.Rand, n int) {
 		np := cs + 1 + rng.Intn(4*cs)
 		site := faultSites[rng.Intn(len(faultSites))]
 		conc := rng.Intn(2) == 0 && (site == "seek" || site == "decode" || site == "pullread" || site == "tempfile")
+		if site == "pullread" {
+			// the gob decoder reads ahead 4 kB: runs must be longer than that for a
+			// closed descriptor to be noticed, so large padded elements are used
+			cs = 48 + rng.Intn(32)
+			np = 2*cs + 1 + rng.Intn(2*cs)
+		}
 		runFault(w, id, cs, np, conc, site, rng.Intn(8), rng.Intn(2) == 0)
 	}
 }
@@ -37,12 +44,19 @@ func runFault(w *vt.W, id, cs, np int, conc bool, site string, k int, ac bool) {
 		vt.Fatal("tempdir: %v", err)
 	}
 	defer os.RemoveAll(dir)
-	m, err := morass.New(ival(0), "r", dir, cs, conc)
+	big := site == "pullread"
+	var m *morass.Morass
+	if big {
+		m, err = morass.New(sval{}, "r", dir, cs, conc)
+	} else {
+		m, err = morass.New(ival(0), "r", dir, cs, conc)
+	}
 	if err != nil {
 		vt.Fatal("morass.New: %v", err)
 	}
 	defer m.CleanUp()
 	m.AutoClear = ac
+	pad := strings.Repeat("p", 300)
 	hidden := dir + ".hidden"
 	mdir := m.VerifDir()
 	count := 0
@@ -101,7 +115,12 @@ func runFault(w *vt.W, id, cs, np int, conc bool, site string, k int, ac bool) {
 	pushed := 0
 	for i := 0; i < np && reported == ""; i++ {
 		v := (np-i)*KD + i
-		es, _ := guard(func() error { return m.Push(ival(v)) })
+		es, _ := guard(func() error {
+			if big {
+				return m.Push(sval{K: v / KD, ID: v % KD, Pad: pad})
+			}
+			return m.Push(ival(v))
+		})
 		note("push", es)
 		if es == "" {
 			pushed++
@@ -125,7 +144,15 @@ func runFault(w *vt.W, id, cs, np int, conc bool, site string, k int, ac bool) {
 				}
 			}
 			var v ival
-			es, _ := guard(func() error { return m.Pull(&v) })
+			es, _ := guard(func() error {
+				if big {
+					var s sval
+					err := m.Pull(&s)
+					v = ival(s.K*KD + s.ID)
+					return err
+				}
+				return m.Pull(&v)
+			})
 			if es == "EOF" {
 				break
 			}
